@@ -283,7 +283,7 @@ static void mon_c11(ctx *c, int final, lgraph *g, const vd_result *res)
      * (several nodes can share word and start frame and differ in grammar state) */
     if (res->nseg > 0) {
         char *cur = (char *)calloc((size_t)g->nn + 1, 1), *nxt = (char *)calloc((size_t)g->nn + 1, 1);
-        int ok = 1, nreal = 0, any; char why[400] = ""; const vd_seg *ps = NULL;
+        int ok = 1, nreal = 0, any, at_end = 0; char why[400] = ""; const vd_seg *ps = NULL;
         for (i = 0; i < res->nseg && ok; ++i) {
             const vd_seg *s = &res->seg[i]; int u;
             if (!strcmp(s->word, "(NULL)")) continue;
@@ -307,11 +307,14 @@ static void mon_c11(ctx *c, int final, lgraph *g, const vd_result *res)
                 if (u == g->end) fine = 1;
                 else if (is_synth_end(g, g->end)) for (k = 0; k < g->n[u].nout; ++k) if (g->l[g->n[u].out[k]].to == g->end) fine = 1;
             }
-            if (!fine) { ok = 0; snprintf(why, sizeof(why), "last word %.60s[..%d] does not end the lattice", ps->word, ps->ef); }
+            if (!fine) { ok = 0; at_end = 1; snprintf(why, sizeof(why), "last word %.60s[..%d] does not end the lattice", ps->word, ps->ef); }
         }
         if (!ok) {
             int nw = 0; for (i = 0; i < res->nseg; ++i) if (strcmp(res->seg[i].word, "(NULL)")) ++nw;
-            vh_viol(vh_path("first_best_not_in_lattice|%s", nw == 1 ? "one_word_result" : "multi_word_result"), "%s: %s (result \"%s\", %d word segments, %d lattice nodes)", fin, why, res->has_hyp ? res->hyp : "", nw, g->nn);
+            /* a single word whose node nothing enters (it is no start of the lattice, or it is the lattice's own start node: the recorded
+             * finding, the end of the lattice is only sought among nodes with entries) is told apart from one that is entered from a
+             * synthetic <s> and still cannot end the lattice */
+            vh_viol(vh_path("first_best_not_in_lattice|%s", nw == 1 ? (at_end && is_synth_start(g, g->start) ? "one_word_result_entered_from_synthetic_start" : "one_word_result") : "multi_word_result"), "%s: %s (result \"%s\", %d word segments, %d lattice nodes)", fin, why, res->has_hyp ? res->hyp : "", nw, g->nn);
         } else vh_count("first_best_found_in_lattice", 1);
         free(cur); free(nxt);
     }
@@ -632,7 +635,7 @@ static void run(long i, vh_rng *r)
     vd_cfg_default(&c.cfg, lang);
     if (lang == VD_EN && vh_chance(r, 0.08)) c.cfg.samprate = 8000;
     if (vh_chance(r, 0.1)) c.cfg.cmn = VH_PICK(r, ((const char *[]){ "batch", "none" }));
-    if ((MON == M_C14 || MON == M_C03) && vh_chance(r, 0.15)) c.cfg.frate = VH_PICK(r, ((int[]){ 50, 200 }));
+    if ((MON == M_C14 || MON == M_C03) && vh_chance(r, 0.15)) c.cfg.frate = VH_PICK(r, ((int[]){ 50, 200, 90, 60, 125, 150, 70 }));
     if ((MON == M_C01 || MON == M_C03) && vh_chance(r, 0.1)) { c.cfg.skip_tmat = 1; vh_count("scenarios_with_skip_transitions", 1); }   /* Bakis topology: states can be skipped */
     c.frate = c.cfg.frate; c.r = r;
     c.d = vd_decoder(&c.cfg);
